@@ -132,6 +132,22 @@ def expired_cases():
     return cases
 
 
+def altref_cases():
+    """every command that names an object by id x the object's other natural handles (full domain, domain in another letter case,
+    sub-domain only, id suffix only, id in the other letter case, id with surrounding whitespace) x every sender class: a handle
+    that is not the id names nothing, and in any case nothing of the owner's may change for a stranger"""
+    cases = []
+    for cmd, objs, refs in ((DOM_DEL, (0, 1), ("domain", "DOMAIN", "sub", "suffix", "case", "ws")),
+                            (MAP_GET, (0, 1), ("suffix", "case", "ws")), (MAP_DEL, (0, 1), ("suffix", "case", "ws")),
+                            (TRAFFIC, (0,), ("suffix", "case", "ws")), (SOCKS, (0,), ("suffix", "case", "ws")),
+                            (CODE_ACT, (0, 1), ("suffix", "case", "ws"))):
+        for ref in refs:
+            steps = [step(conn, who, cmd, obj=o, ref=ref, sent=3, recv=4, claim=claim)
+                     for o in objs for conn, who in CONNS for claim in (0, 2 if who != 2 else 1)]
+            cases.append(dict(copy.deepcopy(WORLD), mode="case", aux=True, steps=steps, tag="altref"))
+    return cases
+
+
 RACE_CASE = {"mode": "race", "tag": "race", "nclients": 4, "online": [True] * 4, "per_client": 40, "iters": 40, "aux": False,
              "codes": [{"t": 1, "act": 0}, {"t": 2, "act": 0}, {"t": 3, "act": 0}], "domains": [{"c": 1}, {"c": 2}, {"c": 3}, {"c": 4}]}
 
@@ -563,6 +579,8 @@ def case_value(case, out, flags):
             kind = "c" if s["cmd"] == CODE_ACT else "d" if s["cmd"] == DOM_DEL else "m"
             if s["obj"] == -2:
                 obj = None
+            elif s.get("ref") and s["obj"] >= 0:
+                obj = [NOSUCH]      # a handle that is not the id names nothing
             elif s["obj"] < 0 or s["obj"] >= seen[kind]:
                 obj = [NOSUCH]
             else:
@@ -597,7 +615,7 @@ def honest_twin(case):
 def twin_wanted(c):
     if any(s.get("fault", 0) > 0 for s in c["steps"]):
         return False      # which call is the k-th depends on map iteration order inside the services: two runs need not fail at the same place
-    return (c.get("tag") in ("sweep", "random", "corpus", "xnode", "expired") or c.get("tag", "").startswith("authz") or c.get("tag", "").startswith("history")) and any(s["claim"] for s in c["steps"])
+    return (c.get("tag") in ("sweep", "random", "corpus", "xnode", "expired", "altref") or c.get("tag", "").startswith("authz") or c.get("tag", "").startswith("history")) and any(s["claim"] for s in c["steps"])
 
 
 def load_corpus():
@@ -655,6 +673,7 @@ def run(ctx, only_cases=None):
         cases += xnode_cases()
         cases += authz_change_cases()
         cases += expired_cases()
+        cases += altref_cases()
         cases += answer_cases()
         cases += random_cases(ctx.rng, 2500 if thorough else 250, [h for h in HANDLED])
     racecs = [c for c in cases if c.get("mode") == "race"] + ([RACE_CASE] if only_cases is None else [])
